@@ -28,6 +28,10 @@ SetToSeq(s) ==   \* ascending
       F(t) == IF t = {} THEN <<>>
               ELSE LET m == CHOOSE x \in t : \A y \in t : x <= y IN <<m>> \o F(t \ {m})
   IN F(s)
+\* a multiset given as a function value -> multiplicity, rendered as the sequence of
+\* <<value, multiplicity>> pairs in ascending value order (ToJson cannot tell a function
+\* with domain 1..n from a sequence)
+MsSeq(f) == LET d == SetToSeq(DOMAIN f) IN [i \in 1..Len(d) |-> <<d[i], f[d[i]]>>]
 IsRef(v) == v < 0
 Item(k, v) == [key |-> k, val |-> v, tg |-> 0]
 ItemT(k, v, t) == [key |-> k, val |-> v, tg |-> t]   \* t: bitmask of tags on the argument
@@ -103,7 +107,8 @@ NotTagged(h, v) == ~(IsRef(v) /\ h[-v].k = "tagged")
 NewObjectsT(h, kd, maxItems, nleaves, nkeys, tagChoices, unsetTagged) ==
   IF kd.k = "tagged"
   THEN {Obj("tagged", 0, <<ItemT(1, v, t)>>) :
-          v \in Values(h, nleaves) \cup (IF unsetTagged THEN {0} ELSE {}),
+          \* (a TaggedValue is itself a Buildable: a TaggedValue given as its value is expanded)
+          v \in {w \in Values(h, nleaves) : NotTagged(h, w)} \cup (IF unsetTagged THEN {0} ELSE {}),
           t \in (tagChoices \ {0}) \cup (IF tagChoices \ {0} = {} THEN {1} ELSE {})}
   ELSE
   UNION {
